@@ -180,7 +180,8 @@ class Batch:
             kw = dict(case.get("csvkw") or {})
             if case.get("enc"):
                 kw["encoding"] = case["enc"]
-            impl, reb = impl_lines(items, self.with_rebuild, kw or None)
+            with C.ProcessTZ(case.get("tz")):
+                impl, reb = impl_lines(items, self.with_rebuild, kw or None)
             spans.append((len(all_items), len(items)))
             all_items += items
             all_impl += impl
